@@ -87,7 +87,7 @@ SIM_ERRORS = (SimErr, SimAbort, usim.Concurrent)
 
 
 def n_cases(tier):
-    return 2500 if tier == 'quick' else 60000
+    return 2500 if tier == 'quick' else 200000
 
 
 def make_case(seed, index, tier):
